@@ -8,6 +8,7 @@ import Driver.Codec
 import Driver.Script
 import Driver.Chunks
 import Driver.Adpcm
+import Driver.C10
 open Sf
 
 def lawOf (s : String) : Option G711.Law :=
@@ -56,4 +57,8 @@ def main (args : List String) : IO UInt32 := do
   | "script" :: rest => scriptCmd rest
   | "chunks" :: _ => do ChunksCmd.run (← readLines)
   | "adpcm" :: rest => Driver.Adpcm.cmd rest
+  | "c10grid" :: rest => Sf.C10Driver.gridCmd rest
+  | "c10points" :: _ => Sf.C10Driver.pointsCmd
+  | "c10enum" :: _ => Sf.C10Driver.enumCmd
+  | "c10fcheck" :: _ => Sf.C10Driver.fcheckCmd
   | _ => IO.eprintln "usage: sfmodel <g711|...> ..."; return 2
